@@ -121,7 +121,14 @@ def run(ctx, res):
             # `flag.swap(false)` tests and clears in one step: equivalent to load + store(false) on the true edge
             loads.append((bi, t))
             swap_clears = True
-    if len(loads) != 1:
+    helper = EL.prestep_flag_helper(L, P) if not loads else None
+    if helper is not None:
+        if helper["problems"]:
+            res.bad("FLAG-CONSUME", "eval::eval # flag-helper # " + helper["problems"][0][:60],
+                    "the interrupt test lives in %s, called before every step, but: %s" % (helper["name"], "; ".join(helper["problems"])), helper["fn"].loc())
+        else:
+            res.ok("FLAG-CONSUME", "%s (called before every step): Interrupted only on the true edge of the one flag test, after store(false); the stop result never reaches the step" % helper["name"])
+    elif len(loads) != 1:
         res.bad("FLAG-CONSUME", "eval::eval # flag-load", "expected exactly one test of the interrupt flag per step, found %d" % len(loads), f.loc())
     else:
         lb, lt = loads[0]
